@@ -11,15 +11,18 @@
 (* drops 0-dimensional factors, element.py:100-107,606-616, so the flat    *)
 (* sequence is a faithful name of the nested object).                      *)
 (*                                                                         *)
-(* Items are records [t, d, c, s] (all four fields always present so that  *)
-(* TLC can compare any two items):                                         *)
-(*   t = "X"  Index(ndims = c[1], index = c[2])        identity map        *)
-(*   t = "I"  Identity(ndims = c[1])                                       *)
-(*   t = "C"  child of reference d, c[k] = child number in factor k        *)
-(*            (SimplexChild / right nested TensorChild)                    *)
-(*   t = "E"  edge c[2] of factor c[1] of reference d                      *)
-(*            (SimplexEdge / TensorEdge1 / TensorEdge2 nests)              *)
-(*   t = "S"  ScaledUpdim(s[1], s[2])                                      *)
+(* Items are records [t, c, s] (all three fields always present so that    *)
+(* TLC can compare any two items), nested exactly like the nutils objects: *)
+(*   t = "X"   Index(ndims = c[1], index = c[2])        identity map       *)
+(*   t = "I"   Identity(ndims = c[1])                                      *)
+(*   t = "SC"  SimplexChild(ndims = c[1], ichild = c[2])                   *)
+(*   t = "SE"  SimplexEdge(ndims = c[1], iedge = c[2])                     *)
+(*   t = "TC"  TensorChild(s[1], s[2])                                     *)
+(*   t = "T1"  TensorEdge1(s[1], ndims2 = c[1])                            *)
+(*   t = "T2"  TensorEdge2(ndims1 = c[1], s[1])                            *)
+(*   t = "SU"  ScaledUpdim(s[1], s[2])                                     *)
+(* swapup / swapdown below are transcribed method by method from           *)
+(* transform.py:260-430.                                                   *)
 (*                                                                         *)
 (* Affine maps are exact dyadic: [m, n, e, A, b] denotes                   *)
 (*   x in Q^n |-> (A x + b) / 2^e in Q^m   (A = m rows of n integers),     *)
@@ -104,45 +107,39 @@ SwapTab == << << <<1, 0>>, <<2, 0>>, <<3, 0>>, <<7, 1>> >>,
               << <<0, 3>>, <<1, 3>>, <<2, 3>>, <<4, 3>> >> >>
 
 \* ------------------------------------------------------------------ items
-MkX(n, i) == [t |-> "X", d |-> <<>>, c |-> <<n, i>>, s |-> <<>>]
-MkI(n) == [t |-> "I", d |-> <<>>, c |-> <<n>>, s |-> <<>>]
-MkC(d, cs) == [t |-> "C", d |-> d, c |-> cs, s |-> <<>>]
-MkE(d, j, e) == [t |-> "E", d |-> d, c |-> <<j, e>>, s |-> <<>>]
-MkS(a, b) == [t |-> "S", d |-> <<>>, c |-> <<>>, s |-> <<a, b>>]
+MkX(n, i) == [t |-> "X", c |-> <<n, i>>, s |-> <<>>]
+MkI(n) == [t |-> "I", c |-> <<n>>, s |-> <<>>]
+MkSC(n, k) == [t |-> "SC", c |-> <<n, k>>, s |-> <<>>]
+MkSE(n, e) == [t |-> "SE", c |-> <<n, e>>, s |-> <<>>]
+MkTC(a, b) == [t |-> "TC", c |-> <<>>, s |-> <<a, b>>]
+MkT1(a, n2) == [t |-> "T1", c |-> <<n2>>, s |-> <<a>>]
+MkT2(n1, b) == [t |-> "T2", c |-> <<n1>>, s |-> <<b>>]
+MkSU(a, b) == [t |-> "SU", c |-> <<>>, s |-> <<a, b>>]
 NoSwap == <<>>
 
-\* reference a child / edge item maps from
-EdgeFromRef(d, j) == IF d[j] = 1 THEN TcDrop(d, j) ELSE TcSet(d, j, d[j] - 1)
 RECURSIVE ToDims(_)
 RECURSIVE FromDims(_)
-ToDims(it) == IF it.t \in {"X", "I"} THEN it.c[1]
-              ELSE IF it.t \in {"C", "E"} THEN TcSum(it.d)
-              ELSE ToDims(it.s[1])
-FromDims(it) == IF it.t \in {"X", "I"} THEN it.c[1]
-                ELSE IF it.t = "C" THEN TcSum(it.d)
-                ELSE IF it.t = "E" THEN TcSum(it.d) - 1
-                ELSE FromDims(it.s[2])
-RECURSIVE FromRef(_)
-\* only defined for C / E / S items
-FromRef(it) == IF it.t = "C" THEN it.d
-               ELSE IF it.t = "E" THEN EdgeFromRef(it.d, it.c[1])
-               ELSE FromRef(it.s[2])
-IsChild(it) == it.t = "C"
-IsTensorChild(it) == it.t = "C" /\ Len(it.d) >= 2
-NChildren(d) == TcPow2(TcSum(d))
-NEdges(d) == TcSum(d) + Len(d)
+ToDims(it) == IF it.t \in {"X", "I", "SC", "SE"} THEN it.c[1]
+              ELSE IF it.t = "TC" THEN ToDims(it.s[1]) + ToDims(it.s[2])
+              ELSE IF it.t = "T1" THEN ToDims(it.s[1]) + it.c[1]
+              ELSE IF it.t = "T2" THEN it.c[1] + ToDims(it.s[1])
+              ELSE ToDims(it.s[1])                                  \* SU
+FromDims(it) == IF it.t \in {"X", "I", "SC"} THEN it.c[1]
+                ELSE IF it.t = "SE" THEN it.c[1] - 1
+                ELSE IF it.t = "TC" THEN FromDims(it.s[1]) + FromDims(it.s[2])
+                ELSE IF it.t = "T1" THEN FromDims(it.s[1]) + it.c[1]
+                ELSE IF it.t = "T2" THEN it.c[1] + FromDims(it.s[1])
+                ELSE FromDims(it.s[2])                              \* SU
+IsChild(it) == it.t \in {"SC", "TC"}
 
-RECURSIVE ChildMapFrom(_, _, _)
-ChildMapFrom(d, cs, k) == IF k > Len(d) THEN IdMap(0)
-                          ELSE BlockDiag(SimplexChildMap(d[k], cs[k]), ChildMapFrom(d, cs, k + 1))
 RECURSIVE ItemMap(_)
 ItemMap(it) ==
     IF it.t \in {"X", "I"} THEN IdMap(it.c[1])
-    ELSE IF it.t = "C" THEN ChildMapFrom(it.d, it.c, 1)
-    ELSE IF it.t = "E" THEN
-        LET j == it.c[1]
-        IN BlockDiag(IdMap(TcSum(TcPre(it.d, j - 1))),
-                     BlockDiag(SimplexEdgeMap(it.d[j], it.c[2]), IdMap(TcSum(TcPost(it.d, j)))))
+    ELSE IF it.t = "SC" THEN SimplexChildMap(it.c[1], it.c[2])
+    ELSE IF it.t = "SE" THEN SimplexEdgeMap(it.c[1], it.c[2])
+    ELSE IF it.t = "TC" THEN BlockDiag(ItemMap(it.s[1]), ItemMap(it.s[2]))
+    ELSE IF it.t = "T1" THEN BlockDiag(ItemMap(it.s[1]), IdMap(it.c[1]))
+    ELSE IF it.t = "T2" THEN BlockDiag(IdMap(it.c[1]), ItemMap(it.s[1]))
     ELSE Compose(ItemMap(it.s[1]), ItemMap(it.s[2]))
 RECURSIVE ChainMap(_, _)
 \* map of a chain (first item outermost); n0 = dimension of the empty chain
@@ -154,34 +151,101 @@ ChainToDims(chain, n0) == IF Len(chain) = 0 THEN n0 ELSE ToDims(chain[1])
 \* consecutive items fit
 WellFormedChain(chain) == \A k \in 1..(Len(chain) - 1) : FromDims(chain[k]) = ToDims(chain[k + 1])
 
+\* ------------------------------------------------------------------ references (flat: sequence of simplex dimensions)
+\* children and edges of a reference in the order of Reference.child_transforms / edge_transforms
+\* (element.py:429-440, 700-720); the point has the single child SimplexChild(0, 0) and no edges
+RECURSIVE ChildSeq(_)
+ChildSeq(d) == IF Len(d) = 0 THEN <<MkSC(0, 0)>>
+               ELSE IF Len(d) = 1 THEN [k \in 1..TcPow2(d[1]) |-> MkSC(d[1], k - 1)]
+               ELSE LET rest == ChildSeq(Tail(d))
+                        nr == Len(rest)
+                    IN [k \in 1..(TcPow2(d[1]) * nr) |-> MkTC(MkSC(d[1], (k - 1) \div nr), rest[((k - 1) % nr) + 1])]
+RECURSIVE EdgeSeq(_)
+EdgeSeq(d) == IF Len(d) = 0 THEN <<>>
+              ELSE IF Len(d) = 1 THEN [k \in 1..(d[1] + 1) |-> MkSE(d[1], k - 1)]
+              ELSE LET rest == EdgeSeq(Tail(d))
+                       n2 == TcSum(Tail(d))
+                   IN [k \in 1..(d[1] + 1 + Len(rest)) |->
+                         IF k <= d[1] + 1 THEN MkT1(MkSE(d[1], k - 1), n2) ELSE MkT2(d[1], rest[k - d[1] - 1])]
+SeqRange(q) == {q[k] : k \in 1..Len(q)}
+ChildItems(d) == SeqRange(ChildSeq(d))
+EdgeItems(d) == SeqRange(EdgeSeq(d))
+NChildren(d) == TcPow2(TcSum(d))
+NEdges(d) == TcSum(d) + Len(d)
+\* factor (1-based) an edge item of reference d acts on, and the reference it maps from
+RECURSIVE EdgeFactor(_)
+EdgeFactor(it) == IF it.t = "T2" THEN 1 + EdgeFactor(it.s[1]) ELSE 1
+EdgeFromRef(d, j) == IF d[j] = 1 THEN TcDrop(d, j) ELSE TcSet(d, j, d[j] - 1)
+\* position (0-based) of an item in a sequence of items, -1 if absent
+PosIn(q, it) == IF \E k \in 1..Len(q) : q[k] = it THEN (CHOOSE k \in 1..Len(q) : q[k] = it) - 1 ELSE -1
+
+RECURSIVE TailsOf(_, _)
+\* all chains of at most n child / edge items that start at reference d
+TailsOf(d, n) ==
+    IF n = 0 THEN {<<>>}
+    ELSE {<<>>}
+         \cup UNION {{<<c>> \o t : t \in TailsOf(d, n - 1)} : c \in ChildItems(d)}
+         \cup UNION {{<<e>> \o t : t \in TailsOf(EdgeFromRef(d, EdgeFactor(e)), n - 1)} : e \in EdgeItems(d)}
+
 \* ------------------------------------------------------------------ swap rules
-\* edge.swapup(other): (edge, other) -> (child, edge') with the same composition, or NoSwap
-SwapUp(edge, other) ==
-    IF edge.t = "E" /\ other.t = "C" /\ other.d = EdgeFromRef(edge.d, edge.c[1]) THEN
-        LET d == edge.d
-            j == edge.c[1]
-            dropped == d[j] = 1
-            sub == IF dropped THEN 0 ELSE other.c[j]
-            p == SwapTab[edge.c[2] + 1][sub + 1]
-            cs == IF dropped THEN TcIns(other.c, j, p[1]) ELSE TcSet(other.c, j, p[1])
-        IN <<MkC(d, cs), MkE(d, j, p[2])>>
-    ELSE IF edge.t = "S" /\ other.t = "I" THEN <<edge.s[1], edge.s[2]>>
-    ELSE NoSwap
-\* edge.swapdown(other): (other, edge) -> (edge', child') with the same composition, or NoSwap
+RECURSIVE SwapUp(_, _)
+\* self.swapup(other): (self, other) -> (child, edge') with the same composition, or NoSwap
+SwapUp(self, other) ==
+    IF self.t = "SE" THEN                                            \* SimplexEdge.swapup, 290-294
+        IF other.t = "SC" THEN
+            LET p == SwapTab[self.c[2] + 1][other.c[2] + 1]
+            IN <<MkSC(self.c[1], p[1]), MkSE(self.c[1], p[2])>>
+        ELSE NoSwap
+    ELSE IF self.t = "T1" THEN                                       \* TensorEdge1.swapup, 366-378
+        LET a == self.s[1]
+            first == other.t = "TC" /\ FromDims(a) = ToDims(other.s[1])
+            second == ~first /\ other.t \in {"TC", "SC"} /\ FromDims(a) = 0
+            swapped == IF first THEN SwapUp(a, other.s[1])
+                       ELSE IF second THEN SwapUp(a, MkSC(0, 0)) ELSE NoSwap
+            trans2 == IF first THEN other.s[2] ELSE other
+        IN IF swapped # NoSwap THEN <<MkTC(swapped[1], trans2), MkT1(swapped[2], FromDims(trans2))>> ELSE NoSwap
+    ELSE IF self.t = "T2" THEN                                       \* TensorEdge2.swapup, 403-415
+        LET b == self.s[1]
+            first == other.t = "TC" /\ FromDims(b) = ToDims(other.s[2])
+            second == ~first /\ other.t \in {"TC", "SC"} /\ FromDims(b) = 0
+            swapped == IF first THEN SwapUp(b, other.s[2])
+                       ELSE IF second THEN SwapUp(b, MkSC(0, 0)) ELSE NoSwap
+            trans1 == IF first THEN other.s[1] ELSE other
+        IN IF swapped # NoSwap THEN <<MkTC(trans1, swapped[1]), MkT2(FromDims(trans1), swapped[2])>> ELSE NoSwap
+    ELSE IF self.t = "SU" THEN                                       \* ScaledUpdim.swapup, 348-350
+        IF other.t = "I" THEN <<self.s[1], self.s[2]>> ELSE NoSwap
+    ELSE NoSwap                                                      \* TransformItem.swapup, 103
+\* SimplexEdge.swapdown's search: first edge number, then first child number, whose swap entry is <<c, e>>
 SwapDownHits(n, c, e) == {p \in (0..n) \X (0..(TcPow2(n - 1) - 1)) : SwapTab[p[1] + 1][p[2] + 1] = <<c, e>>}
-SwapDown(other, edge) ==
-    IF edge.t = "E" /\ other.t = "C" /\ other.d = edge.d THEN
-        LET d == edge.d
-            j == edge.c[1]
-            hits == SwapDownHits(d[j], other.c[j], edge.c[2])
-        IN IF hits # {} THEN
-               LET p == CHOOSE q \in hits : \A r \in hits : q[1] < r[1] \/ (q[1] = r[1] /\ q[2] <= r[2])
-                   cs == IF d[j] = 1 THEN TcDrop(other.c, j) ELSE TcSet(other.c, j, p[2])
-               IN <<MkE(d, j, p[1]), MkC(EdgeFromRef(d, j), cs)>>
-           ELSE IF Len(d) >= 2 THEN <<MkS(other, edge), MkI(FromDims(edge))>>
-           ELSE NoSwap
-    ELSE IF edge.t = "S" /\ IsTensorChild(other) THEN <<MkS(other, edge), MkI(FromDims(edge))>>
-    ELSE NoSwap
+RECURSIVE SwapDown(_, _)
+\* self.swapdown(other), written SwapDown(other, self): (other, self) -> (edge', child') or NoSwap
+SwapDown(other, self) ==
+    IF self.t = "SE" THEN                                            \* SimplexEdge.swapdown, 296-306
+        IF other.t = "SC" THEN
+            LET hits == SwapDownHits(self.c[1], other.c[2], self.c[2])
+            IN IF hits = {} THEN NoSwap
+               ELSE LET p == CHOOSE q \in hits : \A r \in hits : q[1] < r[1] \/ (q[1] = r[1] /\ q[2] <= r[2])
+                    IN <<MkSE(self.c[1], p[1]), MkSC(self.c[1] - 1, p[2])>>
+        ELSE NoSwap
+    ELSE IF self.t = "T1" THEN                                       \* TensorEdge1.swapdown, 380-387
+        IF other.t = "TC" /\ FromDims(other.s[1]) = ToDims(self.s[1]) THEN
+            LET swapped == SwapDown(other.s[1], self.s[1])
+            IN IF swapped # NoSwap
+               THEN <<MkT1(swapped[1], ToDims(other.s[2])),
+                      IF FromDims(swapped[2]) > 0 THEN MkTC(swapped[2], other.s[2]) ELSE other.s[2]>>
+               ELSE <<MkSU(other, self), MkI(FromDims(self))>>
+        ELSE NoSwap
+    ELSE IF self.t = "T2" THEN                                       \* TensorEdge2.swapdown, 417-424
+        IF other.t = "TC" /\ FromDims(other.s[2]) = ToDims(self.s[1]) THEN
+            LET swapped == SwapDown(other.s[2], self.s[1])
+            IN IF swapped # NoSwap
+               THEN <<MkT2(ToDims(other.s[1]), swapped[1]),
+                      IF FromDims(swapped[2]) > 0 THEN MkTC(other.s[1], swapped[2]) ELSE other.s[1]>>
+               ELSE <<MkSU(other, self), MkI(FromDims(self))>>
+        ELSE NoSwap
+    ELSE IF self.t = "SU" THEN                                       \* Updim.swapdown, 260-262
+        IF other.t = "TC" THEN <<MkSU(other, self), MkI(FromDims(self))>> ELSE NoSwap
+    ELSE NoSwap                                                      \* TransformItem.swapdown, 106
 
 \* ------------------------------------------------------------------ chain rewriting, one loop iteration each
 \* canonical, transform.py:31-45; state <<items, p>> with p the 1-based position of python's items[i]
@@ -218,23 +282,4 @@ Promote(chain, ndims) ==
             IN Canonical(TcPre(chain, k)) \o Uppermost(TcPost(chain, k))
 IsCanonical(chain) == \A k \in 1..(Len(chain) - 1) : SwapDown(chain[k], chain[k + 1]) = NoSwap
 
-\* ------------------------------------------------------------------ enumeration helpers
-\* all child-index tuples of reference d
-ChildTuples(d) == {cs \in [1..Len(d) -> 0..7] : \A k \in 1..Len(d) : cs[k] < TcPow2(d[k])}
-ChildItems(d) == {MkC(d, cs) : cs \in ChildTuples(d)}
-EdgeItems(d) == {MkE(d, q[1], q[2]) : q \in {q \in (1..Len(d)) \X (0..3) : q[2] <= d[q[1]]}}
-\* k-th child / edge in the order of Reference.child_transforms / edge_transforms (0-based k)
-RECURSIVE ChildTupleOf(_, _, _)
-\* row-major: first factor is most significant (element.py:720)
-ChildTupleOf(d, k, pos) == IF pos > Len(d) THEN <<>>
-                           ELSE LET rest == TcPow2(TcSum(TcPost(d, pos)))
-                                IN <<k \div rest>> \o ChildTupleOf(d, k % rest, pos + 1)
-ChildNo(d, k) == MkC(d, ChildTupleOf(d, k, 1))
-RECURSIVE EdgeNoFrom(_, _, _)
-EdgeNoFrom(d, k, j) == IF k <= d[j] THEN MkE(d, j, k) ELSE EdgeNoFrom(d, k - d[j] - 1, j + 1)
-EdgeNo(d, k) == EdgeNoFrom(d, k, 1)
-ChildSeq(d) == [k \in 1..NChildren(d) |-> ChildNo(d, k - 1)]
-EdgeSeq(d) == [k \in 1..NEdges(d) |-> EdgeNo(d, k - 1)]
-\* position (0-based) of an item in a sequence of items, -1 if absent
-PosIn(seq, it) == IF \E k \in 1..Len(seq) : seq[k] = it THEN (CHOOSE k \in 1..Len(seq) : seq[k] = it) - 1 ELSE -1
 =============================================================================
